@@ -109,6 +109,14 @@ class SPath:
                 return a[2]
         return None
 
+    def payload_of(self, expr, variant="Some"):
+        """the payload of expr when the path knows it to be `variant` (a constructor, or established by an atom)"""
+        if expr[0] == "agg" and expr[2] == variant and expr[3]:
+            return expr[3][0][1]
+        if self.variant_of(expr) == (variant,):
+            return project(downcast(expr, variant), "0")
+        return None
+
     def ret_variant(self):
         return self.variant_of(self.ret)
 
